@@ -124,8 +124,8 @@ def site_maths():
 
 
 def site_vertex_init():
-    tree, _ = T.load(VERTS)
-    fn = T.find_def(tree, "_BaseFrameField2DVertices._initialize_variables")
+    from .c18stranslate import load_fn          # normalised tree (`a > b` -> `b < a`, `x = x + e` -> `x += e`, `not a == b` -> `a != b`)
+    fn = load_fn(VERTS, "_BaseFrameField2DVertices._initialize_variables")
     top = [s for s in fn.body if isinstance(s, ast.If)]
     branch = _one(top, "top-level if in _initialize_variables")
     t = branch.test
@@ -167,15 +167,15 @@ def site_vertex_init():
     lp = _one(loops, "loop over feature vertices")
     iff = _one([s for s in lp.body if isinstance(s, ast.If)], "if in normalisation loop")
     tt = iff.test
-    if not (isinstance(tt, ast.Compare) and isinstance(tt.ops[0], ast.Gt) and isinstance(tt.left, ast.Call) and dotted(tt.left.func) == "abs"
+    if not (isinstance(tt, ast.Compare) and isinstance(tt.ops[0], ast.Lt) and isinstance(tt.comparators[0], ast.Call) and dotted(tt.comparators[0].func) == "abs"
             and len(iff.body) == 1 and isinstance(iff.body[0], ast.AugAssign) and isinstance(iff.body[0].op, ast.Div)):
         raise T.TranslateError("feature normalisation not recognised")
-    return {"guarded": guarded, "featThr": _ratlit(tt.comparators[0])}
+    return {"guarded": guarded, "featThr": _ratlit(tt.left)}
 
 
 def site_vertex_flag():
-    tree, _ = T.load(VERTS)
-    fn = T.find_def(tree, "_BaseFrameField2DVertices.flag_singularities")
+    from .c18stranslate import load_fn          # normalised tree: `a > b` -> `b < a`, `x = x + e` -> `x += e`, annotations dropped
+    fn = load_fn(VERTS, "_BaseFrameField2DVertices.flag_singularities")
     zt = _one([s for s in ast.walk(fn) if isinstance(s, ast.Assign) and isinstance(s.targets[0], ast.Name) and s.targets[0].id == "ZERO_THRESHOLD"], "ZERO_THRESHOLD")
     thr = _ratlit(zt.value)
     tr = _one([s for s in ast.walk(fn) if isinstance(s, ast.Assign) and isinstance(s.targets[0], ast.Tuple)
@@ -234,10 +234,12 @@ def site_vertex_flag():
         raise T.TranslateError("angle is not initialised to 0 per face")
     sel = _one([s for s in floop.body if isinstance(s, ast.If)], "sign selection")
     def cmp_shape(t, opcls, negthr):
-        if not (isinstance(t, ast.Compare) and isinstance(t.ops[0], opcls) and dotted(t.left) == "angle"): return False
+        # on the normalised tree `angle > ZERO_THRESHOLD` reads `ZERO_THRESHOLD < angle`; `angle < -ZERO_THRESHOLD` is unchanged
+        if not (isinstance(t, ast.Compare) and len(t.ops) == 1 and isinstance(t.ops[0], ast.Lt)): return False
+        if opcls is ast.Gt:
+            return dotted(t.left) == "ZERO_THRESHOLD" and dotted(t.comparators[0]) == "angle"
         r = t.comparators[0]
-        if negthr: return isinstance(r, ast.UnaryOp) and isinstance(r.op, ast.USub) and dotted(r.operand) == "ZERO_THRESHOLD"
-        return dotted(r) == "ZERO_THRESHOLD"
+        return dotted(t.left) == "angle" and isinstance(r, ast.UnaryOp) and isinstance(r.op, ast.USub) and dotted(r.operand) == "ZERO_THRESHOLD"
     def assigned(body):
         s = body[0]
         v = s.value
@@ -434,4 +436,7 @@ end Mouette.Generated.C18V
 """
         _, sha = T.write_generated("C18Vertex", body)
         for r in recs: r["detail"] = f"{r['detail']} [file sha {sha}]"
+    if not all(r["ok"] for r in recs):
+        from .c18stranslate import write_stub
+        write_stub("C18Vertex", recs)          # never leave the file of an earlier tree on disk
     return recs
